@@ -63,8 +63,7 @@ class _Patch:
         self.ep = EnvPatch()
         for k, v in self.kw.items():
             if k == "os":
-                self.ep.replace(real_os, v)
-                self.ep.replace(real_os.environ, v.environ)
+                self.ep.os_env(v.environ)
             elif k == "socket":
                 self.ep.replace(_socket, v)
                 self.ep.replace(_socket.inet_aton, v.inet_aton)
